@@ -813,7 +813,9 @@ def container_method(I, run, base: Ref, name: str, node) -> Value:
 
 _STR_FOLD = {"lower", "upper", "strip", "lstrip", "rstrip", "split", "rsplit", "startswith", "endswith", "encode",
              "decode", "replace", "join", "format", "find", "count", "isdigit", "title", "partition", "splitlines",
-             "hex", "capitalize", "index", "rfind", "zfill", "isalpha", "isalnum", "casefold"}
+             "hex", "capitalize", "index", "rfind", "zfill", "isalpha", "isalnum", "casefold", "isdecimal", "isascii", "isnumeric",
+             "isspace", "islower", "isupper", "istitle", "isidentifier", "isprintable", "swapcase", "removeprefix", "removesuffix",
+             "rpartition", "center", "ljust", "rjust", "expandtabs", "rindex"}
 
 
 def _py_to_val(run, x) -> Value:
@@ -901,7 +903,8 @@ def _method_kind(name, rk):
         return "bytes"
     if name == "decode":
         return "str"
-    if name in ("startswith", "endswith", "isdigit", "isalpha", "isalnum"):
+    if name in ("startswith", "endswith", "isdigit", "isalpha", "isalnum", "isdecimal", "isascii", "isnumeric", "isspace", "islower",
+                "isupper", "istitle", "isidentifier", "isprintable"):
         return "bool"
     if name in ("find", "count", "index", "rfind"):
         return "int"
@@ -1208,7 +1211,9 @@ def str_method(I, run, recv, name, args, kwargs, node) -> Value:
             ln.hi = min(ln.hi, args[1].v + 1)
         if k == "bytes":
             run.kinds[res.key()] = "byteslist"
-    if name in ("decode",) and I.cfg.may_raise is not None:
+    errs = kwargs.get("errors", args[1] if len(args) > 1 else None) if name == "decode" else None
+    lenient = errs is not None and isinstance(I.resolve(run, errs), C) and I.resolve(run, errs).v in ("replace", "ignore", "backslashreplace", "surrogateescape")
+    if name in ("decode",) and I.cfg.may_raise is not None and not lenient:
         run.cur_recv = recv
         excs = I.cfg.may_raise(f"<{k}>.decode", node, run) or []
         if excs:
@@ -1475,6 +1480,21 @@ def _b_sorted(I, run, args, kwargs, node):
         if all(isinstance(x, C) for x in items) and "key" not in kwargs:
             try:
                 return run.alloc(HList([C(v) for v in sorted((x.v for x in items), reverse=bool(kwargs.get("reverse", FALSE).v))]))
+            except TypeError:
+                I.raise_builtin(run, "TypeError", node)
+
+        def const_tuple(x):
+            x = I.resolve(run, x)
+            if isinstance(x, Tup) and all(isinstance(I.resolve(run, y), C) for y in x.items):
+                return tuple(I.resolve(run, y).v for y in x.items)
+            return None
+
+        tups = [const_tuple(x) for x in items]
+        if items and all(t is not None for t in tups) and "key" not in kwargs:
+            # tuples of constants compare like Python tuples
+            try:
+                order = sorted(range(len(items)), key=lambda i: tups[i], reverse=bool(kwargs.get("reverse", FALSE).v))
+                return run.alloc(HList([Tup(tuple(C(v) for v in tups[i])) for i in order]))
             except TypeError:
                 I.raise_builtin(run, "TypeError", node)
         if len(items) <= 1:
